@@ -1,29 +1,50 @@
 """C18 — a failing multi-file load leaves the model repositories clean.
 
 Same machinery as C17 (harness/props/c17.py: directory of model files, history
-of loads over one metamodel, Lean machine `Repo.loadMain`), with fault-centred
-histories: optional warm-up loads, a load in which one file fails in one phase
-(syntax error, unresolvable reference, object processor, model processor,
-missing import target), the reload after the file was corrected, sometimes one
-more load.  For every generated import graph the (failing file, phase) pairs are
-enumerated systematically.
+of loads over one metamodel, Lean machines `Repo.loadMain` / `loadStr` /
+`preload`), with fault-centred histories: optional warm-up loads, a load in
+which one text fails in one phase (syntax error, unresolvable reference, object
+processor, model processor, missing import target), the reload after the text
+was corrected, sometimes one more load.  For every generated import graph the
+(failing text, phase) pairs are enumerated systematically; the texts are the
+files and the main model given as a string without file name.  Every load goes
+through one of the entry points of c17 (step["kind"]: file / strfile / str /
+preload), the failing one through an entry point that reaches the failing text.
 """
 import copy
 
 from harness.props import c17
-from harness.props.c17 import (active_imports, closure_nc, eff_refs, oracle_c17, step_defs_at_load,
-                               visible_definers)
+from harness.props.c17 import (STR, active_imports, active_imports_any, eff_refs, oracle_c17, spec_of,
+                               step_defs_at_load, step_kind, visible_definers)
 
 PHASES = ["syn", "badref", "objf", "modf", "absent"]
+# how the failing load (and its repaired reload) enters textX; weights per provider family.  A model without
+# file name reaches other files only through the patterns of a GlobalRepo provider.
+KINDS_GREPO = [("file", 4), ("str", 4), ("strfile", 1), ("preload", 2)]
+KINDS_URI = [("file", 6), ("strfile", 2), ("str", 1)]
 
 
-def closure_clean(case, obs, k, step, cached):
-    """no fault in the files the load has to read, and every reference has a visible definition"""
-    files = closure_nc(case, step, cached)
+def closure_from(case, step, roots, cached):
+    """models a load constructs when it starts at `roots` (file indices / STR): reachable
+    through files that are not cached"""
+    seen = [r for r in roots if r not in cached]
+    todo = list(seen)
+    while todo:
+        i = todo.pop()
+        for st in active_imports(case, step, i):
+            for j in st or []:
+                if j not in cached and j not in seen:
+                    seen.append(j)
+                    todo.append(j)
+    return seen
+
+
+def files_clean(case, obs, k, step, files, cached):
+    """no fault in the models the load has to construct, and every reference has a visible definition"""
     if c17.step_has_fault(case, step, files):
         return False
     for i in files:
-        for name in eff_refs(step["files"][i]):
+        for name in eff_refs(spec_of(step, i)):
             own, direct, blt = visible_definers(case, step, i, name, lambda j: step_defs_at_load(case, obs, k, j)
                                                 if j in cached else step["files"][j]["defs"])
             if not (own or direct or blt):
@@ -31,27 +52,82 @@ def closure_clean(case, obs, k, step, cached):
     return True
 
 
+def preload_calls(case, step, s):
+    """the `load_model(..., is_main_model=True)` calls of an explicit pre-load: per registered pattern
+    the files it denotes (order of the OS glob as observed), None for a pattern without file"""
+    out = []
+    for stm in s.get("stmts_x", []):
+        out.append(list(stm) if stm else None)
+    return out
+
+
+def closure_clean(case, obs, k, step, cached):
+    """the load of this step has nothing to fail at"""
+    kind = step_kind(step)
+    if kind == "preload":
+        if any(st is None for st in active_imports_any(case, step, STR)):
+            return False  # a registered pattern denotes no file: OSError
+        done = set(cached)
+        for st in preload_calls(case, step, obs["steps"][k]):
+            for root in st or []:
+                files = closure_from(case, step, [root], done)
+                if not files_clean(case, obs, k, step, files, done):
+                    return False
+                done |= set(files)
+        return True
+    roots = [STR] if kind == "str" else [step["main"]]
+    return files_clean(case, obs, k, step, closure_from(case, step, roots, cached), cached)
+
+
+def preload_completed(case, obs, k, step, cached):
+    """files of the main loads a failing pre-load had completed before the failing one: every
+    `load_model(is_main_model=True)` of the pre-load is a load of its own, the completed ones are
+    'earlier successful loads'"""
+    done = set(cached)
+    added = []
+    for st in preload_calls(case, step, obs["steps"][k]):
+        if st is None:
+            return added
+        for root in st:
+            files = closure_from(case, step, [root], done)
+            if not files_clean(case, obs, k, step, files, done):
+                return added
+            done |= set(files)
+            added += files
+    return added
+
+
 def oracle_c18(case, obs):
     """C18 from its statement: after a failing load the global repository and every
     repository of a surviving model are what they were; a load whose files are all
-    correct succeeds."""
+    correct succeeds.  Holds for every entry point of a load (file, string with / without
+    file name, explicit pre-load)."""
     for k, (step, s) in enumerate(zip(case["steps"], obs["steps"])):
         if s["res"].startswith("other:"):
             return f"step {k}: load raised {s['res'][6:]}: {s.get('msg', '')}"
         cached = {f for f, _ in (s["mm_before"] or [])}
         if s["res"] == "ok":
             continue
+        kind = step_kind(step)
+        what = {"file": f"file {step['main']}", "strfile": f"file {step['main']} (text given as a string)",
+                "str": "a model without file name", "preload": "the registered patterns (pre-load)"}[kind]
         # --- a failing load
+        completed = set()
         if case["glob"]:
             before = {f: j for f, j in s["mm_before"]}
             after = {f: j for f, j in s["mm"]}
-            extra = sorted((f for f in after if f not in before), key=str)
+            if kind == "preload":
+                completed = set(preload_completed(case, obs, k, step, cached))
+            extra = sorted((f for f in after if f not in before and f not in completed), key=str)
             if extra:
-                return (f"step {k}: load of file {step['main']} failed ({s['res']}) but files {extra} loaded during "
+                return (f"step {k}: load of {what} failed ({s['res']}) but models {extra} loaded during "
                         f"the attempt remain in the metamodel's global repository")
             lost = sorted((f for f in before if f not in after), key=str)
             if lost:
-                return f"step {k}: failed load removed files {lost} cached by earlier successful loads"
+                return f"step {k}: failed load removed models {lost} cached by earlier successful loads"
+            lost = sorted((f for f in completed if f not in after), key=str)
+            if lost:
+                return f"step {k}: failed pre-load removed files {lost} of the main loads it had completed"
             changed = sorted((f for f in before if after[f] != before[f]), key=str)
             if changed:
                 return f"step {k}: failed load replaced the cached models of files {changed}"
@@ -61,22 +137,30 @@ def oracle_c18(case, obs):
             pall = {i: (tag, d) for i, tag, d in prev["allobj"]}
             locs = {i: (f, d) for i, f, d in s["locs"]}
             allo = {i: (tag, d) for i, tag, d in s["allobj"]}
+            # the main loads a pre-load completed before the failing one are in the shared global dict
+            shared = bool(completed)
             for i in plocs:
                 if locs.get(i) != plocs[i]:
                     return (f"step {k}: failed load changed local_models of surviving model {i} (file {plocs[i][0]}): "
                             f"{plocs[i][1]} -> {locs.get(i, (None, None))[1]}")
-                if allo.get(i) != pall.get(i):
+                now = allo.get(i)
+                if shared and now is not None and now[0] == "mm":
+                    now = (now[0], [e for e in now[1] if e[0] not in completed])
+                if now != pall.get(i):
                     return (f"step {k}: failed load changed all_models seen by surviving model {i} "
                             f"(file {plocs[i][0]}): {pall.get(i)} -> {allo.get(i)}")
     # --- corrected files load
     for k, (step, s) in enumerate(zip(case["steps"], obs["steps"])):
         cached = {f for f, _ in (s["mm_before"] or [])}
-        if step["main"] in cached:
+        kind = step_kind(step)
+        if kind in ("file", "strfile") and step["main"] in cached:
             expect_ok = not step["files"][step["main"]].get("modf")
         else:
             expect_ok = closure_clean(case, obs, k, step, cached)
         if expect_ok and s["res"] != "ok":
-            return (f"step {k}: every file in the import closure of file {step['main']} is correct, yet the load "
+            what = {"file": f"file {step['main']}", "strfile": f"file {step['main']} (text given as a string)",
+                    "str": "the model without file name", "preload": "the registered patterns"}[kind]
+            return (f"step {k}: every file in the import closure of {what} is correct, yet the load "
                     f"failed with {s['res']} {s.get('msg', '')}")
     return None
 
@@ -84,33 +168,89 @@ def oracle_c18(case, obs):
 class Prop(c17.Prop):
     ID = "C18"
     LEAN_MODULE = "TextxVerif.Props.C18"
-    THEOREMS = ["Repo.C18_clean", "Repo.C18_survivors", "Repo.C18_repair"]
+    THEOREMS = ["Repo.C18_clean", "Repo.C18_survivors", "Repo.C18_repair",
+                "Repo.C18_str_name_admissible", "Repo.C18_entry_clean", "Repo.C18_entry_survivors",
+                "Repo.C18_entry_repair", "Repo.C18_preload_fail"]
     QUICK_CASES = 260
     THOROUGH_CASES = 4000
-    RULE = ("import graphs as in C17 (<=6 files, 6 providers, global repository on in 3 of 4 cases); for each graph the "
-            "(failing file, phase) pairs over {syntax error, unresolvable reference, object processor, model processor, "
-            "missing file} are enumerated; history = optional warm-up loads, the failing load, the reload after the "
-            "correction, sometimes one more load; non-trivial = a load fails after it has read >=2 files or with "
-            "models of earlier loads cached, and a later load of the history succeeds")
+    RULE = ("import graphs as in C17 (<=6 files, 6 providers, global repository on in 9 of 10 graphs); for each graph the "
+            "(failing text, phase) pairs over the files and the model without file name x {syntax error, unresolvable "
+            "reference, object processor, model processor, missing file} are enumerated; the failing load and its "
+            "repaired reload enter textX through model_from_file / model_from_str with file name / model_from_str "
+            "without file name (registered as anonymousN) / GlobalRepo.load_models_in_model_repo, chosen so that the "
+            "load constructs the failing text; history = optional warm-up loads (any entry point), the failing load, "
+            "the reload after the correction, sometimes one more load; non-trivial = a load fails after it has read "
+            ">=2 files or with models of earlier loads cached, and a later load of the history succeeds")
     MODELLED = c17.Prop.MODELLED + ("; failure paths: model.py:988-993,1007-1009 handlers, "
-                                    "_remove_all_affected_models_in_construction, metamodel._call_model_processors (fix)")
+                                    "_remove_all_affected_models_in_construction, metamodel._call_model_processors (fix), "
+                                    "ModelRepository.remove_model for models under invented names (Repo.loadStr), failing "
+                                    "GlobalRepo.load_models_in_model_repo (Repo.preload)")
     ASSUMPTIONS = c17.Prop.ASSUMPTIONS + [
         "faults are raised by the file itself (syntax, reference) or by processors that fail for the models of marked "
-        "files; 'corrected' = the next step's files no longer carry the fault"]
+        "files; 'corrected' = the next step's files no longer carry the fault",
+        "every load_model(is_main_model=True) of an explicit pre-load is a load of its own: the main loads a failing "
+        "pre-load completed before the failing one are earlier successful loads and stay"]
+
+    # ---------------------------------------------------------------- gen
+    @staticmethod
+    def mk_step(kind, main, files, text=None):
+        st = {"main": main, "files": files}
+        if kind != "file":
+            st["kind"] = kind
+        if kind == "str":
+            st["text"] = copy.deepcopy(text)
+        return st
+
+    @staticmethod
+    def reaches(case, kind, main, files, text, victim):
+        """does a load through this entry point construct the victim (nothing cached)?"""
+        step = {"main": main, "files": files, "kind": kind, "text": text}
+        if kind == "str":
+            roots = [STR]
+        elif kind == "preload":
+            roots = [j for st in active_imports_any(case, step, STR) for j in st or []]
+        else:
+            roots = [main]
+        return victim in closure_from(case, step, roots, set())
+
+    def gen_exhaustive(self):
+        # complete: every import graph over <=3 files x every failing file x phase
+        for g in c17.all_graphs(3):
+            tab = c17.graph_table(g)
+            for victim in range(len(g)):
+                for phase in PHASES[:4]:
+                    bad = copy.deepcopy(tab)
+                    bad[victim][phase] = True
+                    yield {"provider": "plain_uri", "glob": True, "builtin": [], "files": c17.graph_files(len(g)),
+                           "exhaustive": True,
+                           "steps": [{"main": len(g) - 1, "files": tab}, {"main": 0, "files": bad},
+                                     {"main": 0, "files": tab}]}
+        # complete: <=3 files behind a GlobalRepo provider (every file sees every file a pattern denotes) x every
+        # entry point x every failing text (files and the model without file name) x phase x global repository
+        # on / off, after a successful load through each entry point, followed by the repaired reload
+        for nf in (1, 2, 3):
+            files = c17.graph_files(nf)
+            tab = [{"imports": [], "defs": [c17.NAMES[i]], "refs": [c17.NAMES[i], c17.NAMES[(i + 1) % nf]]}
+                   for i in range(nf)]
+            text = {"defs": [c17.NAMES[4]], "refs": [c17.NAMES[0], c17.NAMES[4]]}
+            for pats in ([{"pat": "*.m", "expect": list(range(nf))}],
+                         [{"pat": "f0.m", "expect": [0]}, {"pat": "*.m", "expect": list(range(nf))}]):
+                for glob in (True, False):
+                    for kind in ("file", "strfile", "str", "preload"):
+                        for warm in ("file", "str", "preload"):
+                            for victim in list(range(nf)) + ([STR] if kind == "str" else []):
+                                for phase in PHASES[:4]:
+                                    bad, btext = copy.deepcopy(tab), copy.deepcopy(text)
+                                    spec_of({"files": bad, "text": btext}, victim)[phase] = True
+                                    yield {"provider": "plain_grepo", "glob": glob, "builtin": [], "files": files,
+                                           "patterns": pats, "exhaustive": True,
+                                           "steps": [self.mk_step(warm, nf - 1, tab, text),
+                                                     self.mk_step(kind, 0, bad, btext),
+                                                     self.mk_step(kind, 0, tab, text)]}
 
     def gen(self, rng, n, tier):
         if tier == "thorough":
-            # complete: every import graph over <=3 files x every failing file x phase
-            for g in c17.all_graphs(3):
-                tab = c17.graph_table(g)
-                for victim in range(len(g)):
-                    for phase in PHASES[:4]:
-                        bad = copy.deepcopy(tab)
-                        bad[victim][phase] = True
-                        yield {"provider": "plain_uri", "glob": True, "builtin": [], "files": c17.graph_files(len(g)),
-                               "exhaustive": True,
-                               "steps": [{"main": len(g) - 1, "files": tab}, {"main": 0, "files": bad},
-                                         {"main": 0, "files": tab}]}
+            yield from self.gen_exhaustive()
         made = 0
         while made < n:
             base = self.gen_case(rng, 0.0, nsteps=1)
@@ -118,33 +258,48 @@ class Prop(c17.Prop):
                 base["glob"] = True
             files0 = base["steps"][0]["files"]
             nf = len(files0)
-            pairs = [(v, p) for v in range(nf) for p in PHASES]
+            kinds = KINDS_GREPO if base["provider"].endswith("grepo") else KINDS_URI
+            # the model without file name used by the "str" loads of this graph (fault free)
+            text0 = self.gen_text(rng, base, {"files": files0}, 0.0)
+            # every text of the graph — the files and the model without file name — failing in every phase
+            pairs = [(v, p) for v in list(range(nf)) + [STR] for p in PHASES if not (v == STR and p == "absent")]
             pairs = rng.shuffle(pairs)[: min(len(pairs), 10)]
             for victim, phase in pairs:
                 if made >= n:
                     break
                 case = copy.deepcopy(base)
-                # main: a file whose closure contains the victim when possible
-                mains = [m for m in range(nf)
-                         if victim in closure_nc(case, {"main": m, "files": files0}, set())]
-                main = rng.choice(mains) if mains and not rng.chance(0.1) else rng.below(nf)
-                if phase == "absent" and victim == main:
+                # entry point and main: such that the load constructs the victim when possible
+                main = rng.below(nf)
+                if victim == STR:
+                    kind = "str"
+                else:
+                    kind = rng.weighted(kinds)
+                    if not rng.chance(0.1):
+                        cands = [(kd, m) for kd, _ in kinds for m in (range(nf) if kd in ("file", "strfile") else [main])
+                                 if self.reaches(case, kd, m, files0, text0, victim)]
+                        same = [c for c in cands if c[0] == kind]
+                        if same:
+                            kind, main = rng.choice(same)
+                        elif cands:
+                            kind, main = rng.choice(cands)
+                if phase == "absent" and victim == main and kind in ("file", "strfile"):
                     phase = "syn"
                 steps = []
                 for _ in range(rng.weighted([(0, 3), (1, 4), (2, 2)])):
-                    steps.append({"main": rng.below(nf), "files": copy.deepcopy(files0)})
+                    steps.append(self.mk_step(rng.weighted(kinds), rng.below(nf), copy.deepcopy(files0), text0))
                 bad = copy.deepcopy(files0)
-                bad[victim][phase] = True
+                btext = copy.deepcopy(text0)
+                spec_of({"files": bad, "text": btext}, victim)[phase] = True
                 if rng.chance(0.15):
-                    v2 = rng.below(nf)
+                    v2 = rng.choice(list(range(nf)) + ([STR] if kind == "str" else []))
                     p2 = rng.choice(PHASES[:4])
-                    bad[v2][p2] = True
-                steps.append({"main": main, "files": bad})
+                    spec_of({"files": bad, "text": btext}, v2)[p2] = True
+                steps.append(self.mk_step(kind, main, bad, btext))
                 if rng.chance(0.2):
-                    steps.append({"main": main, "files": copy.deepcopy(bad)})  # fails again
-                steps.append({"main": main, "files": copy.deepcopy(files0)})  # corrected
+                    steps.append(self.mk_step(kind, main, copy.deepcopy(bad), btext))  # fails again
+                steps.append(self.mk_step(kind, main, copy.deepcopy(files0), text0))  # corrected
                 if rng.chance(0.4):
-                    steps.append({"main": rng.below(nf), "files": copy.deepcopy(files0)})
+                    steps.append(self.mk_step(rng.weighted(kinds), rng.below(nf), copy.deepcopy(files0), text0))
                 case["steps"] = steps
                 made += 1
                 yield case
